@@ -86,6 +86,7 @@ type c10Req struct {
 	Msg     B      `json:"msg"`
 	SleepMs int32  `json:"sleep_ms"`
 	Role    string `json:"role,omitempty"` // blocker | queued | ""
+	Race    string `json:"race,omitempty"` // handle: runs for about the handle timeout; queue: own timeout is about the queueing time; both outcomes allowed
 	Queued  int    `json:"queued"`         // queueing class handed to the model: 0 or the time the blockers ahead hold the workers (ms)
 	Pkg     B      `json:"pkg"`
 	// observations
@@ -247,6 +248,9 @@ func c10Script(q *c10Req) c10Run {
 
 // the clause of the property that governs this request in this configuration
 func c10Clause(cfg c10Cfg, q *c10Req) string {
+	if q.Race != "" {
+		return "race-" + q.Race
+	}
 	if q.Timeout > 0 && int64(q.Queued) >= int64(q.Timeout) {
 		return "queue-timeout"
 	}
@@ -261,6 +265,9 @@ func c10Clause(cfg c10Cfg, q *c10Req) string {
 }
 
 func c10Dispatched(cfg c10Cfg, q *c10Req) bool {
+	if q.Race == "queue" {
+		return false // may or may not be: not waited for
+	}
 	c := c10Clause(cfg, q)
 	return c != "queue-timeout" && c != "ping"
 }
@@ -419,11 +426,41 @@ func c10Monitor(s *c10Scn) []c10Fail {
 	}
 	for i := range s.Reqs {
 		q := &s.Reqs[i]
-		clause := c10Clause(s.Cfg, q)
+		rs := byID[q.ID]
+		if q.Race == "" {
+			out = append(out, c10CheckReq(s, where, timingScn, q, c10Clause(s.Cfg, q), rs)...)
+			continue
+		}
+		// a scripted race (the handler runs for about the handle timeout / the request's own timeout is about the
+		// queueing time): either outcome is allowed, but it must be one of the two, whole
+		var first []c10Fail
+		ok := false
+		for k, alt := range c10Alternatives(s.Cfg, q) {
+			fs := c10CheckReq(s, where, timingScn, &alt, c10Clause(s.Cfg, &alt), rs)
+			if len(fs) == 0 {
+				ok = true
+				break
+			}
+			if k == 0 {
+				first = fs
+			}
+		}
+		if !ok {
+			for _, f := range first {
+				out = append(out, c10Fail{"race-" + q.Race + "/" + f.Sig, f.Desc + " (and the other outcome of the race does not fit either)", true})
+			}
+		}
+	}
+	return out
+}
+
+// the property's clauses for one request, given the clause that governs it and the replies that carry its id
+func c10CheckReq(s *c10Scn, where string, timingScn bool, q *c10Req, clause string, rs []c10Reply) []c10Fail {
+	var out []c10Fail
+	{
 		run := c10Script(q)
 		timing := timingScn || clause == "queue-timeout" || clause == "handle-timeout"
 		what := fmt.Sprintf("%s: request id=%d version=%d packet type=%d func=%q timeout=%d (%s)", where, q.ID, q.Ver, q.PType, q.Func, q.Timeout, clause)
-		rs := byID[q.ID]
 		want := 1
 		if q.PType == c10OneWay {
 			want = 0
@@ -436,7 +473,7 @@ func c10Monitor(s *c10Scn) []c10Fail {
 			out = append(out, c10Fail{"count/" + way + "/" + clause, fmt.Sprintf("%s: %d replies, expected %d", what, len(rs), want), timing})
 		}
 		wantInv := 0
-		if c10Dispatched(s.Cfg, q) && q.Func == "act" && c10IsKnownVer(q.Ver) {
+		if clause != "queue-timeout" && clause != "ping" && q.Func == "act" && c10IsKnownVer(q.Ver) {
 			wantInv = 1
 		}
 		if q.Invoked != wantInv {
@@ -494,6 +531,19 @@ func c10Monitor(s *c10Scn) []c10Fail {
 	return out
 }
 
+// the two outcomes of a scripted race, as the same request with the script moved clear of the boundary
+func c10Alternatives(cfg c10Cfg, q *c10Req) []c10Req {
+	a, b := *q, *q
+	a.Race, b.Race = "", ""
+	switch q.Race {
+	case "handle":
+		a.SleepMs, b.SleepMs = 0, int32(cfg.HT) // Invoke first / deadline first
+	case "queue":
+		a.Queued, b.Queued = 0, int(q.Timeout) // not yet elapsed / elapsed
+	}
+	return []c10Req{a, b}
+}
+
 // ---------- Coq rendering ----------
 func c10CoqMap(m map[string]string) string {
 	ks := make([]string, 0, len(m))
@@ -533,7 +583,13 @@ func c10Coq(s *c10Scn) string {
 	var rs []string
 	for i := range s.Reqs {
 		q := &s.Reqs[i]
-		rs = append(rs, fmt.Sprintf("{| k_pkg := %s; k_queued := %d; k_run := %s; k_counted := %s; k_invoked := %d |}", hx(q.Pkg), q.Queued, c10CoqRun(q), coqBool(q.Func == "act" && c10IsKnownVer(q.Ver)), q.Invoked))
+		var alts []string
+		if q.Race != "" {
+			for _, a := range c10Alternatives(s.Cfg, q) {
+				alts = append(alts, fmt.Sprintf("(%d, %d)", a.Queued, c10Script(&a).Dur))
+			}
+		}
+		rs = append(rs, fmt.Sprintf("{| k_pkg := %s; k_queued := %d; k_run := %s; k_alts := [%s]; k_counted := %s; k_invoked := %d |}", hx(q.Pkg), q.Queued, c10CoqRun(q), strings.Join(alts, "; "), coqBool(q.Func == "act" && c10IsKnownVer(q.Ver)), q.Invoked))
 	}
 	return fmt.Sprintf("{| k_cfg := {| c_pool := %d; c_ht := %d; c_udp := %s |}; k_reqs := [%s]; k_obs := %s |}",
 		s.Cfg.Pool, s.Cfg.HT, coqBool(s.UDP), strings.Join(rs, ";\n   "), hxB(s.Obs))
@@ -709,6 +765,47 @@ func c10GenQueue(rng *rand.Rand, cfg c10Cfg, udp bool, tier string) c10Scn {
 	return s
 }
 
+// races (handle timeout configured): handlers that run for about the handle timeout, so that the goroutine running
+// Invoke and the deadline really race; every outcome the schedules theorem allows is accepted, nothing else
+func c10GenRaceHandle(rng *rand.Rand, cfg c10Cfg, udp bool, tier string) c10Scn {
+	s := c10Scn{Cfg: cfg, UDP: udp, Kind: "race-handle", Conns: 1 + rng.Intn(2), Chunks: []int{4096}}
+	n := 3 + rng.Intn(4)
+	ids := c10DistinctIDs(rng, n)
+	for i := 0; i < n; i++ {
+		q := c10GenReq(rng, cfg, ids[i])
+		q.Func = "act"
+		q.Ver = []int16{c10VerTars, c10VerJSON}[rng.Intn(2)]
+		q.Msg = c10RandBytes(rng, true)
+		q.Race = "handle"
+		q.SleepMs = int32(cfg.HT - 2 + rng.Intn(5))
+		c10Encode(&q)
+		s.Reqs = append(s.Reqs, q)
+	}
+	return s
+}
+
+// races (worker pool): requests whose own timeout is about the time the blockers hold the workers
+func c10GenRaceQueue(rng *rand.Rand, cfg c10Cfg, udp bool, tier string) c10Scn {
+	s := c10GenQueue(rng, cfg, udp, tier)
+	s.Kind = "race-queue"
+	for i := range s.Reqs {
+		q := &s.Reqs[i]
+		if q.Role != "queued" {
+			continue
+		}
+		if !c10IsKnownVer(q.Ver) || q.Ver == c10VerTup {
+			q.Ver = c10VerTars
+		}
+		if q.Ver == c10VerJSON {
+			q.Msg = c10RandBytes(rng, true)
+		}
+		q.Race = "queue"
+		q.Timeout = int32(q.Queued - 3 + rng.Intn(7))
+		c10Encode(q)
+	}
+	return s
+}
+
 func c10Configs(tier string) []c10Cfg {
 	ht := 250
 	if tier == "thorough" {
@@ -719,9 +816,9 @@ func c10Configs(tier string) []c10Cfg {
 
 func c10Gen(tier string, rng *rand.Rand) []c10Scn {
 	var out []c10Scn
-	nt, nu, nq := 12, 6, 4
+	nt, nu, nq, nr := 12, 6, 4, 2
 	if tier == "thorough" {
-		nt, nu, nq = 90, 36, 12
+		nt, nu, nq, nr = 90, 36, 12, 8
 	}
 	for _, cfg := range c10Configs(tier) {
 		for i := 0; i < nt; i++ {
@@ -733,6 +830,14 @@ func c10Gen(tier string, rng *rand.Rand) []c10Scn {
 		if cfg.Pool > 0 {
 			for i := 0; i < nq; i++ {
 				out = append(out, c10GenQueue(rng, cfg, i%2 == 1, tier))
+			}
+			for i := 0; i < nr; i++ {
+				out = append(out, c10GenRaceQueue(rng, cfg, i%2 == 1, tier))
+			}
+		}
+		if cfg.HT > 0 {
+			for i := 0; i < nr; i++ {
+				out = append(out, c10GenRaceHandle(rng, cfg, i%2 == 1, tier))
 			}
 		}
 	}
@@ -857,10 +962,10 @@ func c10Trunc(s string, n int) string {
 
 var c10Stats = struct {
 	mu                                sync.Mutex
-	clause, cfg, tries                map[string]int
+	clause, cfg, tries, races         map[string]int
 	reqs, replies, scenarios, skipped int
 	retried                           []string
-}{clause: map[string]int{}, cfg: map[string]int{}, tries: map[string]int{}}
+}{clause: map[string]int{}, cfg: map[string]int{}, tries: map[string]int{}, races: map[string]int{}}
 
 func c10Class(s *c10Scn) string {
 	c10Stats.mu.Lock()
@@ -890,6 +995,37 @@ func c10Class(s *c10Scn) string {
 			way = "two-way(other type)"
 		}
 		c10Stats.clause[fmt.Sprintf("%s %s %s %s", c10Clause(s.Cfg, q), v, way, tr)]++
+	}
+	if strings.HasPrefix(s.Kind, "race") {
+		rets := map[int32]int32{}
+		for _, ob := range s.Obs {
+			if r := c10DecodeReply(ob); r.Garbage == "" {
+				rets[r.ID] = r.Ret
+			}
+		}
+		for i := range s.Reqs {
+			q := &s.Reqs[i]
+			if q.Race == "" {
+				continue
+			}
+			k := ""
+			ret, answered := rets[q.ID]
+			switch {
+			case q.Race == "queue" && q.Invoked == 0:
+				k = "own timeout about the queueing time: expired"
+			case q.Race == "queue":
+				k = "own timeout about the queueing time: executed"
+			case !answered:
+				k = "handler about the handle timeout: one-way (not observable)"
+			case ret != 0 && c10Script(q).Class == "ok":
+				k = "handler about the handle timeout: deadline first"
+			case c10Script(q).Class == "ok":
+				k = "handler about the handle timeout: Invoke first"
+			default:
+				k = "handler about the handle timeout: failing call (outcomes differ in the message only)"
+			}
+			c10Stats.races[k]++
+		}
 	}
 	c10Stats.mu.Unlock()
 	// distinct (configuration, transport, clause, version, one-way?) combinations exercised
@@ -928,6 +1064,7 @@ func c10Main(a Args) {
 			res.Stats["requests_per_configuration"] = c10Stats.cfg
 			res.Stats["requests_per_clause_version_way_transport"] = c10Stats.clause
 			res.Stats["tries_per_scenario"] = c10Stats.tries
+			res.Stats["race_outcomes_observed"] = c10Stats.races
 			res.Stats["timing_failures_not_reproduced"] = c10Stats.retried
 			res.Traces = c10Stats.scenarios - c10Stats.skipped
 		},
